@@ -2,6 +2,19 @@
 HOOK_COMMITS = []
 NOT_APPLICABLE = {}
 CLAIMS = {
+    "C19": dict(
+        text="(1) spec/Plasticity1D.tla integrates von Mises plasticity with linear isotropic + Prager kinematic hardening under uniaxial stress exactly over rationals (closed-form return map); TLC checks admissibility, "
+        "dgamma >= 0, dgamma*f = 0, monotone accumulated plastic strain, dissipation = sigma_y*dgamma >= 0, exact elasticity before yield on every path of the increment lattice (depth 4 quick / 5 thorough); every path is "
+        "replayed through the 3-D code under uniaxial stress control (MaterialPoint, both local solvers: stress, plastic strain, accumulated plastic strain, zero lateral stress, traceless plastic strain) and through the "
+        "plane-stress integration (stress and condensed algorithmic tangent vs the exact E or E(H+C)/(E+H+C)). (2) For every constructor-accepted combination of yield surface (von Mises, Hill, Drucker-Prager) x isotropic "
+        "hardening (none, linear, Voce, Swift) x kinematic hardening (none, Prager, Armstrong-Frederick, Chaboche) x 3D / plane strain / plane stress, random non-proportional paths with reversals are recorded and reduced "
+        "to the relations of the property (f <= tol, dp >= 0, traceless, dissipation >= 0, finite-difference tangent, solver agreement, no out-of-plane stress, purity of Integrate); Trace_Plasticity.tla requires them at "
+        "every step. (3) spec/InelasticCommit.tla (Pure, Commit, StoreFrozen model-checked) and its behaviours replayed on a real Simulations.InElastic with content hashes of the committed state.",
+        note="Trusted: TLC; exact model only for the linear laws; for the other laws the compared values come from the implementation itself (inequalities / finite differences at 2e-4). Rate-dependent laws and Maxwell branches "
+        "are not yet in the combination table (DESIGN.md growth item). Admissibility tolerance 1e-7 sigma_y (1e-6 in plane stress, the plane-stress iteration's own tolerance).",
+        technique="exact TLA+ return-map model with exhaustive path replay + recorded constitutive traces validated by a TLA+ trace specification + commit-discipline state machine replay",
+        design_ref="DESIGN.md 6/C19",
+    ),
     "C20": dict(
         text="spec/Partition.tla transcribes the per-rank ownership and ghost-layer construction (types in order, ranks in order, shared claim map). TLC checks - exhaustively over all assignments of the cells "
         "of small meshes with one and two main-dimension element types to 2 and 3 ranks - that every element and every node has exactly one owner and that a part holds every element touching a node it owns "
